@@ -231,7 +231,7 @@ def run(ctx):
   ctx.model('MC_Supervised', 'MC_Supervised.cfg', workers=4)
   rng = np.random.default_rng(ctx.seed + 8)
   rs = []
-  per = 5 if ctx.quick else 120
+  per = 5 if ctx.quick else 250
   for name in SUP:
     for unknown in (False, True):
       for k in range(2 if ctx.quick else 4):
@@ -239,7 +239,7 @@ def run(ctx):
   # directed: label vectors whose labeled points all belong to ONE class (only similar pairs can be derived)
   for name in ('ITML_Supervised', 'SDML_Supervised'):
     for unknown in (False, True):
-      rs.append(dict(est=name, unknown=unknown, single_class=True, n=3 if ctx.quick else 20, seed=int(rng.integers(1 << 30))))
+      rs.append(dict(est=name, unknown=unknown, single_class=True, n=3 if ctx.quick else 60, seed=int(rng.integers(1 << 30))))
   ctx.rule = ('6 supervised classes x {no unknown labels, unknown (-1) labels at arbitrary positions incl. the first rows} x '
               'random n_constraints (incl. the default 20*n_classes^2 without unknown labels) / n_chunks / chunk_size / '
               'k_genuine / k_impostor / priors / SCML basis in {triplet_diffs, array, lda} x integer seeds; %d cases per '
